@@ -78,7 +78,14 @@ bool MappedFile::OpenReadOnly() {
     LOG(ERROR) << "attempt to open non-existent file '" << file_path_ << "'.";
     return false;
   }
-  file_.reset(new MappedFileImpl(file_path_, MappedFileImpl::kOpenReadOnly));
+  try {
+    file_.reset(new MappedFileImpl(file_path_, MappedFileImpl::kOpenReadOnly));
+  } catch (const boost::interprocess::interprocess_exception& ex) {
+    // e.g. an empty file left behind by an interrupted build
+    LOG(ERROR) << "error mapping file '" << file_path_ << "': " << ex.what();
+    file_.reset();
+    return false;
+  }
   size_ = file_->get_size();
   return bool(file_);
 }
